@@ -19,13 +19,15 @@ import suite_misc
 def c04(rep, tier, seed):
     rep.assumptions += [
         "tags abstract Python classes; concrete values come from 3 palettes per tag (absval.py)",
-        "values of subclasses of built-in kinds: only order independence is demanded",
+        "values of subclasses of built-in kinds: order independence, and the dtype inferred with the plain base-class value in their place",
         "Vector([]) (schema None) is outside the statement",
     ]
     suite_types.mc(rep, tier)
     suite_types.gen(rep, tier)
     suite_types.trace(rep, tier, seed)
     # results of arithmetic, joins, aggregates, window and CSV parsing are typed by the same rule
+    # promotion through assignment and concatenation (every dtype x incoming kinds, nullable columns with and without a None in them)
+    suite_vec.gen(rep, tier, ["atype"], ("promotion_dtype", "concat_dtype"))
     mon = _merge(suite_vec.gen(rep, tier, ["elem"], ()), suite_table.gen(rep, tier, ["arith"], ()),
                  suite_join.gen(rep, "quick", '{"inner","left","full"}', '{"many_to_many"}', ()),
                  suite_group.gen(rep, "quick", ()), suite_csv.gen(rep, tier, ()))
@@ -49,7 +51,7 @@ def c09(rep, tier, seed):
     rep.assumptions += JOIN_ASSUME
     suite_join.mc(rep, tier)
     seeds = (0, 1) if tier == "quick" else (0, 1, 2, 3, 5, 8, 13, 21)
-    cl = ("rows_inner", "operands_unchanged")
+    cl = ("rows_inner", "operands_unchanged", "names")
     # every expect word: where the expectation holds the rows and their order are those of the plain join
     suite_join.gen(rep, tier, '{"inner"}', suite_join.ALL_EXPECTS, cl, hashseeds=seeds)
     if tier == "quick":
@@ -64,7 +66,7 @@ def c10(rep, tier, seed):
     rep.assumptions += JOIN_ASSUME
     suite_join.mc(rep, tier)
     seeds = (0, 1) if tier == "quick" else (0, 1, 2, 3, 5, 8, 13, 21)
-    cl = ("rows_left", "rows_full")
+    cl = ("rows_left", "rows_full", "names")
     suite_join.gen(rep, tier, '{"left","full"}', suite_join.ALL_EXPECTS, cl, hashseeds=seeds)
     if tier == "quick":
         suite_join.gen(rep, tier, '{"left","full"}', '{"many_to_many"}', cl, hashseeds=seeds[:1], scopes=[(2, 2)])
@@ -96,7 +98,7 @@ def c12(rep, tier, seed):
     seeds = (0, 1) if tier == "quick" else (0, 1, 2, 3, 5, 8)
     suite_group.gen(rep, tier, suite_group.C12_CLAUSES, hashseeds=seeds)
     suite_group.trace(rep, tier, seed, suite_group.C12_CLAUSES, ops=("aggregate", "reduce"))
-    suite_vec.forms(rep, ("form_aggregate",))
+    suite_vec.forms(rep, ("form_aggregate", "history_read"))
     suite_repo.validate(rep, {"group"}, suite_group.C12_CLAUSES)
     suite_heap.gen(rep, tier, "obsv1", ("obs_stats",))
     suite_heap.gen(rep, tier, "obst4", ("obs_agg",))
@@ -117,7 +119,7 @@ def c14(rep, tier, seed):
     suite_sort.mc(rep, tier)
     suite_sort.gen(rep, tier)
     suite_sort.trace(rep, tier, seed)
-    suite_vec.forms(rep, ("form_sort_by",))
+    suite_vec.forms(rep, ("form_sort_by", "history_read"))
     suite_repo.validate(rep, {"sort"}, suite_sort.CLAUSES + ("sort_rows",))
     suite_heap.gen(rep, tier, "obsv2", ("obs_sort",))
     suite_heap.gen(rep, tier, "obst4", ("obs_sort",))
@@ -144,7 +146,7 @@ def c01(rep, tier, seed):
     suite_table.gen(rep, tier, ["tassign"] + ([] if tier == "quick" else ["select", "arith"]), ("refused_changes_nothing", "operands_unchanged"))
     suite_table.enumerated(rep, "struct", ("operands_unchanged",))
     suite_table.enumerated(rep, "twice", ("derived_independent",))      # sizes 1, 3, 70, 1100
-    suite_vec.forms(rep, ("operands_unchanged",))       # every value-returning vector operation x same / wider / incompatible arguments x free vector / live column
+    suite_vec.forms(rep, ("operands_unchanged", "derived_independent"))       # every value-returning vector operation x same / wider / incompatible arguments x free vector / live column
     # derived results are new, independent objects whatever was computed before (same sort twice, ...)
     suite_heap.gen(rep, tier, "obst1", ("obs_sort", "contents@other", "name@other"))
     if tier != "quick":
@@ -163,6 +165,7 @@ def c02(rep, tier, seed):
         suite_heap.gen(rep, tier, "tables", cl)
     suite_heap.trace(rep, tier, seed, cl)
     suite_table.enumerated(rep, "struct", cl + ("stack", "append_rows", "transpose", "construct"))
+    suite_vec.forms(rep, ("rectangular", "grid_read", "derived_current", "derived_independent", "form_index"))
     # "row slices and masks apply uniformly to all columns": every slice (start / stop / step incl. negative steps) and mask on tables
     suite_vec.gen(rep, tier, ["slice", "mask"], ("table_rows",))
 
@@ -182,12 +185,14 @@ def c15(rep, tier, seed):
     # multi-column table assignment while an UNADDRESSED column shares its storage must not be refused
     suite_table.gen(rep, tier, ["tassign"], ("spurious_refusal",))
     suite_table.enumerated(rep, "struct", ("spurious_refusal", "leaked_write"))      # tables built from the caller's own tuples
+    suite_vec.forms(rep, ("derived_independent",))      # the same derivation asked twice: both results writable, neither sees the other
 
 
 def c16(rep, tier, seed):
     rep.assumptions += HEAP_ASSUME + ["hash collisions of the 61-bit fingerprint are excluded by the small value palette"]
     cl = ("fp_value", "outcome", "fp_order")
     suite_vec.enumerated(rep, "fplaws", cl)
+    suite_vec.forms(rep, ("history_read",))
     suite_heap.mc(rep, tier, ["alias", "tables", "fp"])
     suite_heap.devs(rep, ["VecFpNotInvalidated", "TableFpMemo"])
     suite_heap.gen(rep, tier, "fp", cl)           # deep interleavings of fingerprint() reads with writes (paths of 6-8 calls)
@@ -214,7 +219,7 @@ def c05(rep, tier, seed):
     suite_vec.gen(rep, tier, ["elem"], C05_CL)
     suite_table.gen(rep, tier, ["arith"], ("table_arith", "table_width_mismatch"))
     suite_table.enumerated(rep, "methods", ("broadcast",))
-    suite_vec.forms(rep, ("form_elementwise",))          # tuple / range / Vector / Row / column / one-shot iterables as operand
+    suite_vec.forms(rep, ("form_elementwise", "history_read"))          # tuple / range / Vector / Row / column / one-shot iterables as operand
     suite_vec.trace(rep, tier, seed, C05_CL, ops=("elem",))
     suite_heap.gen(rep, tier, "obsv1", ("obs_unary",))      # unary results after any history = on a fresh equal vector
 
@@ -224,6 +229,7 @@ def c06(rep, tier, seed):
     suite_vec.mc(rep, tier)
     suite_vec.gen(rep, tier, ["na", "elem"], C06_CL)
     suite_vec.trace(rep, tier, seed, C06_CL, ops=("elem", "na"))
+    suite_vec.forms(rep, ("form_compare_none", "history_read"))
     # "... and the per-group aggregates": groups holding None (also nothing but None) in aggregate and window
     suite_group.gen(rep, tier, ("agg_value", "window_value", "reduce_value"))
     suite_heap.gen(rep, tier, "obsv1", ("obs_na", "obs_stats"))
@@ -235,7 +241,7 @@ def c07(rep, tier, seed):
     suite_vec.gen(rep, tier, ["slice", "mask", "int", "elem"], C07_CL)
     suite_table.gen(rep, tier, ["select"], ("missing_column", "select_cols", "string_index", "commute"))
     suite_vec.trace(rep, tier, seed, C07_CL, ops=("slice", "mask"))
-    suite_vec.forms(rep, ("form_index",))
+    suite_vec.forms(rep, ("form_index", "grid_read", "derived_independent", "form_compare_none"))      # incl. t[rows, cols] with every combination of key kinds against the plain grid
     suite_misc.gen(rep, ["tcompare", "isinstance"], ("table_compare", "table_compare_dtype"))   # t == x ...: one <bool> column per column, None compares False
     suite_repo.validate(rep, {"getitem"}, ("getitem", "index_accepts", "index_rejects"))     # every v[key] the repository's own tests execute
     suite_heap.gen(rep, tier, "obsv2", ("obs_cmp",))
@@ -250,7 +256,7 @@ def c08(rep, tier, seed):
     suite_vec.gen(rep, tier, ["assign", "atype"], C08_CL)
     suite_table.gen(rep, tier, ["tassign", "rename"], C08_CL + ("table_atomic", "table_assign_cells", "rename", "rename_reject", "rename_atomic"))
     suite_vec.trace(rep, tier, seed, C08_CL, ops=("assign",))
-    suite_vec.forms(rep, ("form_assign", "form_assign_atomic"))
+    suite_vec.forms(rep, ("form_assign", "form_assign_atomic", "grid_write", "grid_atomic"))
     suite_repo.validate(rep, {"setitem"}, ("assign", "assign_reject", "atomic"))              # every v[key] = x the repository's own tests execute
     suite_heap.gen(rep, tier, "tables", ("contents@target", "write_error", "setattr_error"))
 
@@ -293,6 +299,7 @@ def _producers(rep, tier, seed, clauses=()):
         suite_sort.gen(rep, "quick", clauses),
         suite_group.gen(rep, "quick", clauses),
         suite_csv.gen(rep, "quick", clauses),
+        suite_vec.forms(rep, clauses),          # derived objects (rows, slices of rows, casts ...) before and after promoting writes
     ]
     if not q:
         mons += [suite_join.trace(rep, tier, seed, clauses, hashseed=seed % 1000), suite_sort.trace(rep, tier, seed, clauses),
@@ -377,6 +384,7 @@ def c20(rep, tier, seed):
     ]
     suite_repr.gen(rep, tier)
     suite_repr.values(rep)
+    suite_vec.forms(rep, ("history_read",))
     suite_heap.gen(rep, tier, "obsv2", ("obs_repr",))
     suite_heap.gen(rep, tier, "obst3", ("obs_repr",))       # incl. zero-row tables renamed through a live column
 
